@@ -20,7 +20,7 @@ T = 'duke/src/tree/'
 V = 'duke/src/visitor/'
 R = 'duke/src/class_reader.rs'
 
-OPAQUE = ['Instruction', 'StackMapData', 'Exception', 'Lv', 'Attribute', 'TargetInfoCode', 'TargetInfoMethod', 'TargetInfoField', 'TargetInfoClass',
+OPAQUE = ['Instruction', 'StackMapData', 'Exception', 'LabelRange', 'LocalVariableName', 'LvIndex', 'Attribute', 'TargetInfoCode', 'TargetInfoMethod', 'TargetInfoField', 'TargetInfoClass',
           'ClassName', 'JavaString', 'PoolRead', 'Annotation', 'ElementValue', 'MethodSignature', 'MethodParameter', 'MethodAccess', 'MethodName', 'MethodDescriptor',
           'FieldAccess', 'FieldName', 'FieldDescriptor', 'FieldSignature', 'ConstantValue', 'RecordName', 'InnerClass', 'EnclosingMethod', 'ClassSignature', 'Module',
           'PackageName', 'ObjClassName', 'ClassAccess', 'Version']
@@ -110,6 +110,12 @@ CODE_SPEC = '''
 pub open spec fn instr_log(prev: Seq<CEv>, es: Seq<InstructionListEntry>, frames: bool, k: int) -> Seq<CEv> decreases k {
     if k <= 0 { prev } else { instr_log(prev, es, frames, k - 1).push(CEv::Instruction(es[k - 1].label, if frames { es[k - 1].frame } else { None }, es[k - 1].instruction)) }
 }
+pub open spec fn lv_wanted(s: Seq<Lv>, i: CodeInterests, k: int) -> Seq<Lv> decreases k {
+    if k <= 0 { Seq::empty() } else {
+        let p = lv_wanted(s, i, k - 1);
+        if (i.local_variable_table && s[k - 1].descriptor is Some) || (i.local_variable_type_table && s[k - 1].signature is Some) { p.push(s[k - 1]) } else { p }
+    }
+}
 pub open spec fn code_unknown_log<U: UnknownAttributeVisitor>(prev: Seq<CEv>, attrs: Seq<Attribute>, k: int) -> Seq<CEv> decreases k {
     if k <= 0 { prev } else { let p = code_unknown_log::<U>(prev, attrs, k - 1); if U::convertible(attrs[k - 1]) { p.push(CEv::Unknown(attrs[k - 1])) } else { p } }
 }
@@ -121,7 +127,9 @@ CODE_BLOCKS = [
     (None, ['CEv::ExceptionTable(c.exception_table@)']),
     ('c.last_label is Some', ['CEv::LastLabel(c.last_label.unwrap())']),
     ('i.line_number_table && c.line_numbers is Some', ['CEv::LineNumbers(c.line_numbers.unwrap()@)']),
-    ('(i.local_variable_table || i.local_variable_type_table) && c.local_variables is Some', ['CEv::LocalVariables(c.local_variables.unwrap()@)']),
+    # reading delivers the entries of the LocalVariableTable only to visitors interested in it, likewise the LocalVariableTypeTable
+    ('(i.local_variable_table || i.local_variable_type_table) && c.local_variables is Some',
+     ['CEv::LocalVariables(lv_wanted(c.local_variables.unwrap()@, i, c.local_variables.unwrap()@.len() as int))']),
     ('i.runtime_visible_type_annotations && c.runtime_visible_type_annotations@.len() > 0', ['CEv::TypeAnnotations(true)', 'CEv::TypeAnnotationsItems(c.runtime_visible_type_annotations@)']),
     ('i.runtime_invisible_type_annotations && c.runtime_invisible_type_annotations@.len() > 0', ['CEv::TypeAnnotations(false)', 'CEv::TypeAnnotationsItems(c.runtime_invisible_type_annotations@)']),
     ('raw', 'if i.unknown_attributes { code_unknown_log::<CV::UnknownAttribute>({prev}, c.attributes@, c.attributes@.len() as int) } else { {prev} }'),
@@ -288,6 +296,7 @@ def build(u):
     opaque(u, OPAQUE)
     u.raw(COMMON)
     u.item(T + 'method/code.rs', 'struct', 'Label', derives=['Copy', 'Clone', 'PartialEq', 'Eq'])
+    u.item(T + 'method/code.rs', 'struct', 'Lv', derives=[])
     spec_trait(u, V + 'attribute.rs', 'UnknownAttributeVisitor', UA_GHOST, UA_SPECS)
     # ---- visitor traits, innermost first
     u.raw(CEV)
@@ -323,14 +332,16 @@ def build_code(u):
                    (r'for annotation in self\.runtime_visible_type_annotations', 'for annotation in iter: self.runtime_visible_type_annotations'),
                    (r'for annotation in self\.runtime_invisible_type_annotations', 'for annotation in iter: self.runtime_invisible_type_annotations'),
                    (r'for attribute in self\.attributes', 'for attribute in iter: self.attributes')],
-         loops={0: dict(invariant=[C('C17.code.inv.instructions', f'code_visitor.log() == instr_log({S(1)}, self.instructions@, interests.stack_map_table, iter.index@ as int)')]),
-                1: dict(invariant=[C('C17.code.inv.visible-type-annotations', f'{TA} == {S(6)}.push(CEv::TypeAnnotations(true))'),
+         opt_rewrites=[(r'for lv in local_variables\b', 'for lv in iter: local_variables'), (r'let mut wanted = Vec::with_capacity', 'let mut wanted: Vec<Lv> = Vec::with_capacity')],
+         loops={r'for instruction in iter': dict(invariant=[C('C17.code.inv.instructions', f'code_visitor.log() == instr_log({S(1)}, self.instructions@, interests.stack_map_table, iter.index@ as int)')]),
+                r'?for lv in iter': dict(invariant=[C('C17.code.inv.local-variables', 'wanted@ == lv_wanted(local_variables@, interests, iter.index@ as int)')]),
+                r'for annotation in iter: self\.runtime_visible_type': dict(invariant=[C('C17.code.inv.visible-type-annotations', f'{TA} == {S(6)}.push(CEv::TypeAnnotations(true))'),
                                    items_inv('C17.code.inv.visible-type-annotations.items', 'self.runtime_visible_type_annotations', 'type_annotations_visitor')],
                         after=whole('self.runtime_visible_type_annotations')),
-                2: dict(invariant=[C('C17.code.inv.invisible-type-annotations', f'{TA} == {S(7)}.push(CEv::TypeAnnotations(false))'),
+                r'for annotation in iter: self\.runtime_invisible_type': dict(invariant=[C('C17.code.inv.invisible-type-annotations', f'{TA} == {S(7)}.push(CEv::TypeAnnotations(false))'),
                                    items_inv('C17.code.inv.invisible-type-annotations.items', 'self.runtime_invisible_type_annotations', 'type_annotations_visitor')],
                         after=whole('self.runtime_invisible_type_annotations')),
-                3: dict(invariant=[C('C17.code.inv.unknown-attributes', f'code_visitor.log() == code_unknown_log::<<M::CodeVisitor as CodeVisitor>::UnknownAttribute>({S(8)}, self.attributes@, iter.index@ as int)')])},
+                r'for attribute in iter': dict(invariant=[C('C17.code.inv.unknown-attributes', f'code_visitor.log() == code_unknown_log::<<M::CodeVisitor as CodeVisitor>::UnknownAttribute>({S(8)}, self.attributes@, iter.index@ as int)')])},
          asserts=[(('before', r'visitor\.finish_code\(code_visitor\)'),
                    C('C17.code.replay-delivers-every-fact-the-visitor-is-interested-in', f'code_visitor.log() == {S(9)}'))],
          ensures=[C('C17.code.offered-to-the-method-visitor-once', 'res matches Ok(v) ==> v.log() == visitor.log().push(MEv::Code)')])
